@@ -83,6 +83,8 @@ impl<T> Entry<T> {
                 return None;
             }
 
+            #[cfg(may_verif)]
+            crate::verif::point();
             let next = node.next.load(Ordering::Acquire);
             let prev = &mut *node.prev;
 
@@ -102,6 +104,8 @@ impl<T> Entry<T> {
 
                 // this is not the last node, just unlink it
                 (*next).prev = prev;
+                #[cfg(may_verif)]
+                crate::verif::point();
                 prev.next.store(next, Ordering::Release);
 
                 let ret = node.value.take();
@@ -168,8 +172,12 @@ impl<T> Queue<T> {
     pub fn push(&self, t: T) -> (Entry<T>, bool) {
         unsafe {
             let node = Node::new(Some(t));
+            #[cfg(may_verif)]
+            crate::verif::point();
             let prev = self.head.swap(node, Ordering::AcqRel);
             (*node).prev = prev;
+            #[cfg(may_verif)]
+            crate::verif::point();
             (*prev).next.store(node, Ordering::Release);
             let tail = *self.tail.get();
             let is_head = std::ptr::eq(tail, prev);
@@ -182,6 +190,8 @@ impl<T> Queue<T> {
     pub fn is_empty(&self) -> bool {
         let tail = unsafe { *self.tail.get() };
         // the list is empty
+        #[cfg(may_verif)]
+        crate::verif::point();
         std::ptr::eq(self.head.load(Ordering::Acquire), tail)
     }
 
@@ -192,6 +202,8 @@ impl<T> Queue<T> {
     pub unsafe fn peek(&self) -> Option<&T> {
         let tail = *self.tail.get();
         // the list is empty
+        #[cfg(may_verif)]
+        crate::verif::point();
         if std::ptr::eq(self.head.load(Ordering::Acquire), tail) {
             return None;
         }
@@ -199,6 +211,8 @@ impl<T> Queue<T> {
         let mut next;
         let backoff = Backoff::new();
         loop {
+            #[cfg(may_verif)]
+            crate::verif::point();
             next = (*tail).next.load(Ordering::Acquire);
             if !next.is_null() {
                 break;
@@ -219,6 +233,8 @@ impl<T> Queue<T> {
         unsafe {
             let tail = *self.tail.get();
             // the list is empty
+            #[cfg(may_verif)]
+            crate::verif::point();
             if std::ptr::eq(self.head.load(Ordering::Acquire), tail) {
                 return None;
             }
@@ -227,6 +243,8 @@ impl<T> Queue<T> {
             let mut next;
             let backoff = Backoff::new();
             loop {
+                #[cfg(may_verif)]
+                crate::verif::point();
                 next = (*tail).next.load(Ordering::Acquire);
                 if !next.is_null() {
                     break;
@@ -270,6 +288,8 @@ impl<T> Queue<T> {
             let tail = *self.tail.get();
 
             // the list is empty
+            #[cfg(may_verif)]
+            crate::verif::point();
             if std::ptr::eq(self.head.load(Ordering::Acquire), tail) {
                 return None;
             }
@@ -282,6 +302,8 @@ impl<T> Queue<T> {
             let mut next;
             let backoff = Backoff::new();
             loop {
+                #[cfg(may_verif)]
+                crate::verif::point();
                 next = (*tail).next.load(Ordering::Acquire);
                 if !next.is_null() {
                     break;
